@@ -35,6 +35,11 @@ void harness(void) {
   g_cc.slots = &it->metadata.tag_metadata.tagged_item; g_cc.n = 1;
 #elif defined(COPY_KIND_ARRAY)
   cbor_item_t *it = mk_array();
+#if defined(COPY_ARRAY_DEFINITE)
+  __CPROVER_assume(it->metadata.array_metadata.type == _CBOR_METADATA_DEFINITE);
+#elif defined(COPY_ARRAY_INDEFINITE)
+  __CPROVER_assume(it->metadata.array_metadata.type == _CBOR_METADATA_INDEFINITE);
+#endif
   g_cc.slots = (cbor_item_t **)it->data; g_cc.n = it->metadata.array_metadata.end_ptr;
 #endif
   cbor_item_t snap = *it; /* every field of the source node header */
